@@ -45,9 +45,9 @@ MEANING = {
     "pe_security_dir_reject": ("0", lambda a: True, lambda a: a[1] > 0 and a[1] + a[2] <= a[0]),
     "pe_exports_table_outside": ("0", lambda a: a[1] <= a[0], lambda a: a[1] + 4 * a[2] <= a[0]),
     "pe_export_names_outside": ("0", lambda a: a[1] <= a[0], lambda a: a[1] + 4 * a[2] <= a[0]),
-    "dotnet_blob4_ok": ("1", lambda a: a[0] + a[1] + (1 << 32) <= TOP and a[2] <= a[0] + a[1], lambda a: a[2] + 4 < a[0] + a[1]),
-    "dotnet_blob_entry_outside": ("0", lambda a: a[0] + a[1] + (1 << 32) <= TOP and a[2] <= a[0] + a[1], lambda a: a[2] + a[3] < a[0] + a[1]),
-    "dotnet_attr_blob_reject": ("0", lambda a: a[0] + a[1] + (1 << 32) <= TOP and a[2] <= a[0] + a[1], lambda a: a[3] >= 3 and a[2] + a[3] < a[0] + a[1]),
+    "dotnet_blob4_ok": ("1", lambda a: a[0] + a[1] + (1 << 32) <= TOP and a[2] <= a[0] + a[1], lambda a: a[2] + 4 <= a[0] + a[1]),
+    "dotnet_blob_entry_outside": ("0", lambda a: a[0] + a[1] + (1 << 32) <= TOP and a[2] <= a[0] + a[1], lambda a: a[2] + a[3] <= a[0] + a[1]),
+    "dotnet_attr_blob_reject": ("0", lambda a: a[0] + a[1] + (1 << 32) <= TOP and a[2] <= a[0] + a[1], lambda a: a[3] >= 3 and a[2] + a[3] <= a[0] + a[1]),
     "dotnet_attr_str_outside": ("0", lambda a: a[0] + a[1] + (1 << 32) <= TOP and a[2] <= a[0] + a[1], lambda a: a[2] + a[3] <= a[0] + a[1]),
     "dotnet_blob_index_reject": ("0", lambda a: a[0] + a[1] < TOP, lambda a: a[3] != 0 and a[2] < a[0] + a[1]),
     "macho_cmd_too_big": ("0", lambda a: a[1] <= a[0], lambda a: a[1] + a[2] <= a[0]),
